@@ -82,7 +82,12 @@ impl ArrivalCurvePrefix {
                 .map(|(i, _)| i)
                 .next();
             let i = step.unwrap_or(self.steps.len());
-            self.steps[i - 1].1
+            if i == 0 {
+                // delta is shorter than the first step (or there are no steps)
+                0
+            } else {
+                self.steps[i - 1].1
+            }
         }
     }
 }
